@@ -228,11 +228,11 @@ def pingpong_case(rng, cfg, name):
 
 
 # ------------------------------------------------------------------------------------ running
-def build(cfg, sanitize=False, cxx="g++"):
-    flags = ["-std=c++11", "-O1", "-Wall", "-Wextra", "-ftemplate-depth=2000"]
+def build(cfg, sanitize=False, cxx="g++", opt="-O1"):
+    flags = ["-std=c++11", opt, "-Wall", "-Wextra", "-ftemplate-depth=2000"]
     if sanitize:
         # -O0: g++'s UBSan instruments more at -O0 (e.g. reference binding to a misaligned packed member, F8)
-        flags = [f for f in flags if f != "-O1"] + ["-O0", "-g", "-fsanitize=address,undefined", "-fno-sanitize-recover=all"]
+        flags = [f for f in flags if f != opt] + ["-O0", "-g", "-fsanitize=address,undefined", "-fno-sanitize-recover=all"]
     return C.build_harness("machine" + ("_san" if sanitize else ""), G.source(cfg), flags, cxx=cxx)
 
 
